@@ -612,4 +612,136 @@ theorem skipInstance_twice (pre a a2 b : List Byte) (sk cm : Bool) (iters F : Na
     obtain ⟨hg2, hl2⟩ := skipInstance_rest_le cm iters F rs.s rs2 hg1 (by omega) h2 hs2
     exact ⟨hg2, by omega⟩
 
+/-! ### the sections: FindHeaderSection, FindDataSection, GetKeyword -/
+
+theorem takeLine_whole (d : Byte) (k : Nat) (r : List Byte) : (takeLine d k r).1 ++ (takeLine d k r).2 = r := by
+  fun_induction takeLine d k r <;> simp_all
+
+theorem getline_whole (n : Nat) (d : Byte) (s : IS) : (getline n d s).1.whole = s.whole := by
+  obtain ⟨pre, rest, eof, fail, sk⟩ := s
+  unfold getline
+  by_cases hg : (eof = false ∧ fail = false)
+  · obtain ⟨rfl, rfl⟩ := hg
+    have hl := takeLine_whole d (n - 1) rest
+    generalize takeLine d (n - 1) rest = tl at hl
+    obtain ⟨tk, r⟩ := tl
+    simp only [] at hl
+    subst hl
+    cases r with
+    | nil => simp [IS.good, IS.whole]
+    | cons c r' =>
+      by_cases hc : c = d
+      · simp [IS.good, IS.whole, hc]
+      · simp [IS.good, IS.whole, hc]
+  · cases eof <;> cases fail <;> simp at hg <;> simp [IS.good, IS.whole]
+
+theorem headerLoop_whole (n : Nat) (ex : ExitCond) : ∀ fuel s buf steps r, headerLoop n ex fuel s buf steps = .ok r → r.s.whole = s.whole := by
+  intro fuel
+  induction fuel with
+  | zero => intro s buf steps r h; simp [headerLoop] at h
+  | succ f ih =>
+    intro s buf steps r h
+    have hgl := getline_whole n chSemi s
+    unfold headerLoop at h
+    by_cases hc : containsSub kwHEADER (cstr buf) = true
+    · simp only [hc, if_true] at h; cases h; rfl
+    · simp only [hc, Bool.false_eq_true, if_false] at h
+      generalize getline n chSemi s = gl at h hgl
+      obtain ⟨s1, b1⟩ := gl
+      simp only [] at h hgl
+      cases ex <;> simp only [] at h <;> split at h <;> first | (cases h; rfl) | (rw [ih _ _ _ _ h, hgl])
+
+theorem findHeaderSection_keeps (cm : Bool) (iters n : Nat) (ex : ExitCond) (fuel : Nat) : Keeps (findHeaderSectionWith cm iters n ex fuel) := by
+  intro s r h
+  unfold findHeaderSectionWith at h
+  generalize hts : readTokenSeparator cm iters fuel s = ts at h
+  cases ts with
+  | ok r0 =>
+    simp only [] at h
+    rw [headerLoop_whole n ex _ _ _ _ _ h, readTokenSeparator_keeps cm iters fuel s r0 hts]
+  | overflow i k => cases h
+  | outOfFuel => cases h
+
+theorem getKwLoop_whole (delims : List Byte) : ∀ fuel s c sz acc steps s' acc' st,
+    getKwLoop delims fuel s c sz acc steps = .ok (s', acc', st) → s'.whole = s.whole := by
+  intro fuel
+  induction fuel with
+  | zero => intro s c sz acc steps s' acc' st h; simp [getKwLoop] at h
+  | succ f ih =>
+    intro s c sz acc steps s' acc' st h
+    have h' : getKwStep (getKwLoop delims f) delims s c sz acc steps = .ok (s', acc', st) := h
+    unfold getKwStep at h'
+    split at h'
+    · cases h'; rw [putback_whole]
+    · rw [ih _ _ _ _ _ _ _ _ h', get_whole]
+
+theorem getKeyword_keeps (delims : List Byte) (fuel : Nat) : Keeps (getKeyword delims fuel) := by
+  intro s r h
+  unfold getKeyword at h
+  generalize hk : getKeywordFull delims fuel s = kf at h
+  cases kf with
+  | ok v =>
+    obtain ⟨s', acc, st⟩ := v
+    simp only [] at h
+    cases h
+    unfold getKeywordFull at hk
+    simp only []
+    rw [getKwLoop_whole delims _ _ _ _ _ _ _ _ _ hk, get_whole]
+  | overflow i k => cases h
+  | outOfFuel => cases h
+
+theorem matchDATA_whole (s : IS) : (matchDATA s).1.whole = s.whole := by
+  unfold matchDATA
+  split
+  · split
+    · split
+      · split
+        · simp only [get_whole, peek_whole, ws_whole]
+        · simp only [get_whole, peek_whole, ws_whole]
+      · simp only [get_whole, peek_whole, ws_whole]
+    · simp only [get_whole, peek_whole, ws_whole]
+  · simp only [get_whole, peek_whole, ws_whole]
+
+theorem dataSecLoop_whole (comment : IS → Out LoopRes) (hc : Keeps comment) : ∀ fuel s steps r,
+    dataSecLoop comment fuel s steps = .ok r → r.s.whole = s.whole := by
+  intro fuel
+  induction fuel with
+  | zero => intro s steps r h; simp [dataSecLoop] at h
+  | succ f ih =>
+    intro s steps r h
+    have h' : dataSecStep (dataSecLoop comment f) comment s steps = .ok r := h
+    unfold dataSecStep at h'
+    split at h'
+    · cases h'; rfl
+    · have he := extract_whole s
+      generalize s.extract = ex at h' he
+      obtain ⟨s1, o⟩ := ex
+      simp only [] at he
+      cases o with
+      | none => simp only [] at h'; cases h'; exact he
+      | some c =>
+        simp only [] at h'
+        split at h'
+        · have hm := matchDATA_whole s1
+          generalize matchDATA s1 = md at h' hm
+          obtain ⟨s2, fnd⟩ := md
+          simp only [] at hm
+          cases fnd with
+          | true => simp only [] at h'; cases h'; simp only []; rw [hm, he]
+          | false => simp only [] at h'; rw [ih _ _ _ h', hm, he]
+        · split at h'
+          · rw [ih _ _ _ h', sdaiStringRead_whole, putback_whole, he]
+          · split at h'
+            · generalize hcm : comment (s1.putback c) = cr at h'
+              cases cr with
+              | ok rr => simp only [] at h'; rw [ih _ _ _ h', hc _ _ hcm, putback_whole, he]
+              | overflow i k => cases h'
+              | outOfFuel => cases h'
+            · split at h'
+              · cases h'; exact he
+              · rw [ih _ _ _ h', he]
+
+theorem findDataSection_keeps (cm : Bool) (iters fuel : Nat) : Keeps (findDataSection cm iters fuel) :=
+  fun s r h => dataSecLoop_whole _ (readComment_keeps cm iters fuel) fuel s 0 r h
+
 end StepModel.P21Safe
